@@ -97,7 +97,7 @@ Proof.
   { destruct r as [[f|]|e|].
     - destruct (mbap_some _ _ _ _ _ Hwf Hst Ep) as (-> & (k & -> & Hk & _) & _). exists k. repeat split; auto.
     - destruct (mbap_none _ _ _ _ Hwf Hst Ep) as (Hst' & _ & (k & -> & Hk & _) & _). exists k. repeat split; auto.
-    - destruct (mbap_err _ _ _ _ _ Hwf Hst Ep) as ((k & -> & Hk) & _). exists k. repeat split; auto.
+    - destruct (mbap_err _ _ _ _ _ Hwf Hst Ep) as ((k & -> & Hk & _) & _). exists k. repeat split; auto.
       rewrite (mbap_parse_eq _ _ Hwf Hst) in Ep. destruct (sparse st b) as [[s0 b0] r0] eqn:Es. inversion Ep; subst.
       destruct st as [|tx u n]; cbn [sparse] in Es.
       + destruct (Nat.ltb (buf_len b) 7); [inversion Es; subst; exact I|].
@@ -117,6 +117,32 @@ Proof.
   intros b c Hwf Hl Hc. destruct (read_some_ok b c Hwf Hl Hc) as (k & b'' & H1 & H2 & H3 & H4).
   exists k, b''. repeat split; try assumption; try lia. now rewrite H3, <- app_assoc, firstn_skipn.
 Qed.
+
+(* the invariant over a whole next_frame call (any number of parse / read iterations): what was
+   pending plus what the source still holds = what this call consumed ++ what is pending now ++
+   what the source holds now. Nothing is lost, duplicated or re-read. *)
+Theorem tcp_no_loss : forall st b n fi r' n' res, wf b -> st_ok st ->
+  next_frame (nf_fuel n) {| r_parser := PTcp st; r_buf := b |} n fi = (r', n', res) ->
+  match res with
+  | NfFrame _ | NfEnd (EndBad _) => exists consumed, b_pend b ++ sbytes n = consumed ++ b_pend (r_buf r') ++ sbytes n'
+  | _ => True
+  end.
+Proof.
+  intros st b n fi r' n' res Hwf Hst E.
+  pose proof (mbap_nf_ref (nf_fuel n) st b n fi (S (length (b_pend b ++ sbytes n))) Hwf Hst ltac:(unfold nf_fuel; lia) ltac:(lia)) as H.
+  unfold rd in H. rewrite E in H. unfold nf_post in H. cbv zeta in H. destruct res as [f|e].
+  - destruct H as (b' & -> & _ & _ & _ & _ & _ & _ & Hc). exact Hc.
+  - destruct e; try exact I. destruct H as (_ & b' & -> & _ & _ & _ & _ & Hc). exact Hc.
+Qed.
+
+Corollary tcp_no_loss' : forall st b n fi r' n' res, wf b -> st_ok st ->
+  next_frame (nf_fuel n) {| r_parser := PTcp st; r_buf := b |} n fi = (r', n', res) ->
+  match res with
+  | NfFrame _ | NfEnd (EndBad _) =>
+      exists consumed, b_pend b ++ fst (sched_stream n fi) = consumed ++ b_pend (r_buf r') ++ fst (sched_stream n' fi)
+  | _ => True
+  end.
+Proof. intros st b n fi r' n' res Hwf Hst E. rewrite !sched_stream_eq. cbn [fst]. exact (tcp_no_loss st b n fi r' n' res Hwf Hst E). Qed.
 
 (* ---- never full ---- *)
 Theorem tcp_never_full : forall st b st' b', wf b -> st_ok st -> mbap_parse st b = (st', b', Ok None) ->
